@@ -627,7 +627,23 @@ func (g *gen) shaped(d *opDesc) (*big.Int, *big.Int) {
 		if d.grp == "quoraw" || d.grp == "divu64" {
 			num = big.NewInt(1)
 		}
-		switch g.r.Intn(6) {
+		switch g.r.Intn(8) {
+		case 6, 7: // quotient within a few units of the largest representable magnitude: the truncated quotient is
+			// the bound itself (or next to it) and the division inexact, so that a round-up lands one beyond it
+			bound := maxBD
+			if d.fam == "dec" {
+				bound = maxDec
+			}
+			b = new(big.Int).Mul(big.NewInt(int64(1+g.r.Intn(9))), pow10(num.BitLen()*3/10-1-g.r.Intn(3))) // short decimals below one
+			if g.r.Intn(3) == 0 {
+				b = g.bits(1 + g.r.Intn(70))
+			}
+			if b.Sign() == 0 {
+				b = big.NewInt(7)
+			}
+			a = new(big.Int).Mul(bound, b)
+			a.Quo(a, num)
+			a.Add(a, big.NewInt([]int64{1, 1, 1, 0, 2, -1, 3}[g.r.Intn(7)]))
 		case 0: // exact quotient, or one unit off
 			m := g.bits(1 + g.r.Intn(60))
 			b = new(big.Int).Mul(m, num)
